@@ -12,6 +12,8 @@ From NV Require Import Io.Sched Sinks.Mt Sinks.MtProofs Sinks.Format Sinks.Forma
 From NV Require Import Sinks.MtApp Sinks.MtAppProofs.
 From NV Require Import Base.LE Index.Layout Index.LayoutProofs Sinks.IndexCalls Sinks.IndexCallsProofs.
 From NV Require Import Sinks.AsyncSink Sinks.AsyncSinkProofs.
+From NV Require Import Index.CsiLayout Index.CsiLayoutProofs Sinks.IndexBgzf Sinks.IndexBgzfProofs Sinks.DropProofs.
+From NV Require Import Sinks.CramCalls Sinks.CramCallsProofs.
 Close Scope N_scope.
 Import ListNotations.
 
@@ -431,6 +433,130 @@ Example c14_example_bai :
 Proof. vm_compute. repeat split; reflexivity. Qed.
 
 (* ----------------------------------------------------------------------------------------- *)
+(* CSI and tabix index writers, FULL statement.  NV.Sinks.IndexBgzf gives write_index as the actual
+   sequence of write_all calls it makes ON THE BGZF WRITER it owns (one per integer / magic / name;
+   the CSI aux section is serialised to a Vec first and handed over as two calls), including where
+   the encoder itself returns InvalidInput or panics; the BYTES are C17's layout models
+   NV.Index.CsiLayout.w_csi_bytes / w_tbi_bytes (read-only), whose readers C17 proved to round-trip.
+   The life is write_index; try_finish() | finish(self); Drop, on the BGZF state machine above. *)
+
+(* the call boundaries add up to C17's layout; a well-formed index has no encoder error / panic *)
+Theorem c14_csi_calls_are_layout :
+  forall i, csi_ok i -> x_first_bad (c_csi i) = None /\ x_out (c_csi i) = w_csi_bytes i.
+Proof. exact c_csi_good. Qed.
+Print Assumptions c14_csi_calls_are_layout.
+
+Theorem c14_tbi_calls_are_layout :
+  forall i, tbi_ok i -> x_first_bad (c_tbi i) = None /\ x_out (c_tbi i) = w_tbi_bytes i.
+Proof. exact c_tbi_good. Qed.
+Print Assumptions c14_tbi_calls_are_layout.
+
+(* the whole property for the life  write_index(&i); <finishing call>  on any destination: both Ok
+   => the destination holds BGZF(payload) -- ceil(|payload| / maxbuf) frames then the EOF marker --
+   of C17's payload, which the CSI reader decodes to the index written (up to the normalisations
+   C17 states: reread_csi); a consumed Fail e => the call that was running returns Err e and is
+   the last one made; short writes / Interrupted only => Ok, Ok and the same bytes; always a prefix *)
+Theorem c14_csi_write_index :
+  forall maxbuf frames, 0 < maxbuf -> forall i o, csi_ok i -> o = BTryFinish \/ o = BFinish ->
+  forall s rs st' s', ixb_run maxbuf frames (c_csi i) o s = (rs, st', s') ->
+    (Forall (fun r => r = XDone Ok) rs ->
+       rs = [XDone Ok; XDone Ok] /\
+       sbytes s' = sbytes s ++ bgzf_of_len maxbuf frames (length (w_csi_bytes i)) /\
+       read_csi (w_csi_bytes i) = Some (reread_csi i)) /\
+    (forall c e, sscript s = c ++ sscript s' -> In (Fail e) c -> e <> e_interrupted ->
+       rs = [XDone (Err e)] \/ rs = [XDone Ok; XDone (Err e)]) /\
+    (no_fail (sscript s) ->
+       rs = [XDone Ok; XDone Ok] /\ sbytes s' = sbytes s ++ bgzf_of_len maxbuf frames (length (w_csi_bytes i))) /\
+    (exists p, sbytes s' = sbytes s ++ p /\ prefix p (bgzf_of_len maxbuf frames (length (w_csi_bytes i)))).
+Proof. exact csi_write_index_property. Qed.
+Print Assumptions c14_csi_write_index.
+
+Theorem c14_tbi_write_index :
+  forall maxbuf frames, 0 < maxbuf -> forall i o, tbi_ok i -> o = BTryFinish \/ o = BFinish ->
+  forall s rs st' s', ixb_run maxbuf frames (c_tbi i) o s = (rs, st', s') ->
+    (Forall (fun r => r = XDone Ok) rs ->
+       rs = [XDone Ok; XDone Ok] /\
+       sbytes s' = sbytes s ++ bgzf_of_len maxbuf frames (length (w_tbi_bytes i)) /\
+       read_tbi (w_tbi_bytes i) = Some (reread_tbi i)) /\
+    (forall c e, sscript s = c ++ sscript s' -> In (Fail e) c -> e <> e_interrupted ->
+       rs = [XDone (Err e)] \/ rs = [XDone Ok; XDone (Err e)]) /\
+    (no_fail (sscript s) ->
+       rs = [XDone Ok; XDone Ok] /\ sbytes s' = sbytes s ++ bgzf_of_len maxbuf frames (length (w_tbi_bytes i))) /\
+    (exists p, sbytes s' = sbytes s ++ p /\ prefix p (bgzf_of_len maxbuf frames (length (w_tbi_bytes i)))).
+Proof. exact tbi_write_index_property. Qed.
+Print Assumptions c14_tbi_write_index.
+
+(* an index below the staging buffer (the usual case): write_index returns Ok without touching the
+   destination whatever its script; the finishing call alone decides and reports *)
+Theorem c14_index_small_error_at_finish :
+  forall maxbuf frames, 0 < maxbuf -> forall cs payload o,
+    (x_first_bad cs = None /\ x_out cs = payload) -> o = BTryFinish \/ o = BFinish -> length payload < maxbuf ->
+  forall s rs st' s', ixb_run maxbuf frames cs o s = (rs, st', s') ->
+    exists r, rs = [XDone Ok; XDone r] /\
+      (r = Ok -> sbytes s' = sbytes s ++ bgzf_of_len maxbuf frames (length payload)) /\
+      (forall c e, sscript s = c ++ sscript s' -> In (Fail e) c -> e <> e_interrupted -> r = Err e) /\
+      (no_fail (sscript s) -> r = Ok).
+Proof. exact ixb_small_index. Qed.
+Print Assumptions c14_index_small_error_at_finish.
+
+(* the encoder's own failure [c] (InvalidInput or a panic) after the clean steps [pre]: write_index
+   returns it, no finishing call is made, and Drop -- also when unwinding -- still leaves a complete
+   BGZF stream of the bytes accepted before (destination without Fail events) *)
+Theorem c14_index_over_bgzf_encoder_failure :
+  forall maxbuf frames, 0 < maxbuf -> forall pre c post o s,
+    x_first_bad pre = None -> (forall b, c <> XW b) -> no_fail (sscript s) ->
+    exists s2, ixb_life maxbuf frames (pre ++ c :: post) o s = ([xres_of c], s2) /\
+      sbytes s2 = sbytes s ++ bgzf_of_len maxbuf frames (length (x_out pre)).
+Proof. exact ixb_encoder_failure. Qed.
+Print Assumptions c14_index_over_bgzf_encoder_failure.
+
+(* a CSI index with one reference, aux header with one name: 25 calls on the BGZF writer, none on the
+   destination before the finishing call; the destination fails in the 3rd call of try_finish.  A
+   NUL in the second sequence name of a tabix header: InvalidInput after 11 calls *)
+Example c14_example_csi :
+  let h := mkhdr FVcf 0%N 1%N None 35%N 0%N [[99]%N] in
+  let i := mkcsi 14%N 5 (Some h) [mkcref [(4681, [(10, 20)])]%N [(4681, 7)]%N None] (Some 3%N) in
+  length (c_csi i) = 13 /\
+  fst (csi_life 100 [drop_wit_frame] i BTryFinish (mkSink [] [Full; Full; Fail 5%N] 0)) = [XDone Ok; XDone (Err 5%N)] /\
+  fst (csi_life 100 [drop_wit_frame] i BFinish ideal_sink) = [XDone Ok; XDone Ok] /\
+  fst (tbi_life 100 [drop_wit_frame] (mktbi (Some (mkhdr FVcf 0%N 1%N None 35%N 0%N [[99]; [98; 0]]%N)) [] None)
+         BFinish ideal_sink) = [XDone (Err e_invalid_input)].
+Proof. vm_compute. repeat split; reflexivity. Qed.
+
+(* ----------------------------------------------------------------------------------------- *)
+(* The residual class "the BGZF EOF marker is written by Drop" (known findings
+   bam-trait-finish-eof-in-drop and builder-bgzf-eof-in-drop) characterised exactly: a life made of
+   write_all / flush calls only whose last explicit call is a flush (all the trait `finish` of a
+   bam writer, and the Write trait object returned by the sam / vcf Builder, can do), then Drop.
+   Failures during the explicit calls are reported (c14_bgzf_failure_reported, any ops).  When every
+   explicit call returned Ok: all data frames are already on the destination, nothing is staged, and
+   Drop makes exactly ONE write_all -- of the 28-byte marker.  So the only destination calls whose
+   failure is lost are the inner write calls of that write_all; the destination then holds all the
+   data and a prefix of the marker, and the complete file iff that write_all succeeded. *)
+Theorem c14_eof_in_drop_characterisation :
+  forall maxbuf frames, 0 < maxbuf -> forall ops s rs st1 s1,
+    Forall no_finish ops ->
+    bw_run_ops maxbuf frames (ops ++ [BFlush]) s = (rs, st1, s1) ->
+    Forall (fun r => r = Ok) rs ->
+    sbytes s1 = sbytes s ++ bw_ideal_out maxbuf frames (ops ++ [BFlush]) /\ staged st1 = 0 /\
+    snd (bw_drop frames st1 s1) = snd (write_all BGZF_EOF s1) /\
+    forall r s2, write_all BGZF_EOF s1 = (r, s2) ->
+      (exists p, sbytes s2 = sbytes s ++ bw_ideal_out maxbuf frames (ops ++ [BFlush]) ++ p /\ prefix p BGZF_EOF) /\
+      (r = Ok -> sbytes s2 = sbytes s ++ bw_ideal_out maxbuf frames (ops ++ [BFlush]) ++ BGZF_EOF) /\
+      (no_fail (sscript s1) -> r = Ok) /\
+      (forall c e, sscript s1 = c ++ sscript s2 -> In (Fail e) c -> e <> e_interrupted -> r = Err e).
+Proof. exact flush_only_life. Qed.
+Print Assumptions c14_eof_in_drop_characterisation.
+
+(* the class is inhabited: write, flush, drop; the destination fails in the marker: every call
+   returned Ok, the destination holds the data frame and 5 bytes of the marker *)
+Theorem c14_eof_in_drop_refuted :
+  bw_run 100 [drop_wit_frame] [BWriteAll 3; BFlush] (mkSink [] (repeat Full 14 ++ [Short 5; Fail 2%N]) 0)
+  = ([Ok; Ok], mkSink (drop_wit_frame ++ firstn 5 BGZF_EOF) [] 16).
+Proof. exact eof_in_drop_refuted. Qed.
+Print Assumptions c14_eof_in_drop_refuted.
+
+(* ----------------------------------------------------------------------------------------- *)
 (* async writers over a faulty tokio AsyncWrite destination (NV.Sinks.AsyncSink): every poll of
    poll_write consumes one event -- Pending, accept part of the buffer, or an error.  tokio's
    write_all returns EVERY error of a poll (ErrorKind::Interrupted included). *)
@@ -517,6 +643,61 @@ Theorem c14_layered_all_ok_decodes :
   forall R encode decode, c14_cram_full_statement R encode decode.
 Proof. exact layered_all_ok_decodes. Qed.
 Print Assumptions c14_layered_all_ok_decodes.
+
+(* ----------------------------------------------------------------------------------------- *)
+(* The CRAM data-container encoder's CALL STRUCTURE (NV.Sinks.CramCalls): write_container = header
+   (4-byte length, 3 + 5 variable-length integers, the landmarks, CRC) then per block (method, type,
+   id, two sizes, the data -- no inner call when empty --, CRC), each one write_all on the sink.  The
+   lengths are an oracle of the run (not reproducible); count, order and shape are derived. *)
+
+(* how many calls a container makes *)
+Theorem c14_cram_container_call_count :
+  forall c, cc_wf c = true ->
+    length (cc_lens c) + cc_empties c = 10 + length (cc_landmarks c) + 7 * length (cc_blocks c).
+Proof. exact cc_lens_count. Qed.
+Print Assumptions c14_cram_container_call_count.
+
+(* one write_container on any destination: Ok => all its bytes were appended; a consumed Fail e =>
+   Err e; short writes / Interrupted only => Ok; always a prefix (content opaque: lengths) *)
+Theorem c14_cram_container_write :
+  forall c s r s', cramc_write_container c s = (r, s') ->
+    (r = Ok -> sbytes s' = sbytes s ++ repeat 0%N (list_sum (cc_lens c))) /\
+    (forall sc e, sscript s = sc ++ sscript s' -> In (Fail e) sc -> e <> e_interrupted -> r = Err e) /\
+    (no_fail (sscript s) -> r = Ok) /\
+    (exists n, n <= list_sum (cc_lens c) /\ sbytes s' = sbytes s ++ repeat 0%N n).
+Proof. exact cramc_container_property. Qed.
+Print Assumptions c14_cram_container_write.
+
+(* for EVERY index k of the container's calls failing: returned by write_container after exactly
+   k + 1 inner calls, the destination holds exactly the first k buffers *)
+Theorem c14_cram_container_fail_at_every_call :
+  forall c, cc_wf c = true -> forall k, k < length (cc_lens c) ->
+  forall e b0 rest c0, e <> e_interrupted ->
+    cramc_write_container c (mkSink b0 (repeat Full k ++ Fail e :: rest) c0)
+    = (Err e, mkSink (b0 ++ repeat 0%N (list_sum (firstn k (cc_lens c)))) rest (c0 + k + 1)).
+Proof. exact cramc_fail_at_every_call. Qed.
+Print Assumptions c14_cram_container_fail_at_every_call.
+
+(* the whole life (write_header; one write_alignment_record per record, some of which write the
+   container of the buffered records; try_finish = the last container then the EOF container) is an
+   instance of cram_run: failure reported by the operation that was running, all Ok => everything
+   was appended *)
+Theorem c14_cram_life_with_containers :
+  forall hdr recs fin s rs s',
+    cramc_run hdr recs fin s = (rs, s') ->
+    (forall c e, sscript s = c ++ sscript s' -> In (Fail e) c -> e <> e_interrupted -> In (Err e) rs) /\
+    (no_fail (sscript s) -> rs = repeat Ok (2 + length recs)).
+Proof. exact cramc_life. Qed.
+Print Assumptions c14_cram_life_with_containers.
+
+(* a container with one landmark and two blocks (the second without data): 11 + 7 + 6 calls; the
+   destination fails in the data of the first block *)
+Example c14_example_cram_container :
+  let c := mkCcont [1; 1; 1] 1 1 1 1 1 [1] [mkCblock 1 1 1 20; mkCblock 1 1 1 0] in
+  cc_wf c = true /\ length (cc_lens c) = 24 /\
+  fst (cramc_write_container c (mkSink [] (repeat Full 16 ++ [Fail 5%N]) 0)) = Err 5%N /\
+  length (sbytes (snd (cramc_write_container c (mkSink [] (repeat Full 16 ++ [Fail 5%N]) 0)))) = 4 + 9 + 4 + 5.
+Proof. vm_compute. repeat split; reflexivity. Qed.
 
 Definition wit_frame : list byte := map N.of_nat (seq 1 30).
 
